@@ -18,6 +18,8 @@ fn gen_case(dna: &[u8], cfg: &crate::gen::GenCfg) -> Case {
 	let f = d.u8();
 	let mut cfg = cfg.clone();
 	cfg.finished = true;
+	// a share of files from newer versions (longer known payloads, incl. Game End): still finished replays
+	cfg.newer = f >= 216;
 	Case { m: crate::gen::gen_model(&mut d, &cfg), hash: f & 1 != 0, comp: Comp::ALL[(f as usize >> 1) % 3] }
 }
 
@@ -70,6 +72,13 @@ fn check(ctx: &Ctx, c: &Case, label: &str, counting: bool) -> Result<(), Fail> {
 	let mut empty = m.clone();
 	empty.frames.clear();
 	diff_views(&view_immutable(&skip.frames), &view_model(&empty)).map_err(|e| fail("empty_frames", format!("skip-frames game's frame columns: {}", e)))?;
+	if m.version > spec::MAX_VERSION {
+		// writers refuse newer versions (C09): the write/re-read clauses do not apply
+		if counting {
+			ctx.class("newer_version_skip_vs_full_only");
+		}
+		return Ok(());
+	}
 	// it can be written and re-read, and the re-read equals it
 	let w = rt::slp_write(&skip).expect_ok("slippi::write(skip game)").map_err(|f| f.with_file("slp", &bytes).with_detail(detail.clone()))?;
 	let re = rt::slp_read(&w, false, false).expect_ok("slippi::read(written skip game)").map_err(|f| f.with_file("slp", &bytes).with_file("written.slp", &w))?;
